@@ -19,7 +19,7 @@ EXPLANATION = (
     "each SummaryKind arm of SummarySink::finish writes what its mode promises under the right count guard; (MODE) "
     "-v --count-matches ⇒ --count and -o --count ⇒ --count-matches and nothing else, SearchMode → printer/SummaryKind "
     "mapping with quiet ⇒ Quiet, quit_after_match ≡ no stats ∧ quiet, and the same max_count reaches all three "
-    "printers. That re-discovered matches equal the searcher's is not decided.")
+    "printers. That re-discovered matches equal the searcher's is not decided. (REDISCOVER, shared with C09; MLPRED) every printer decides multi-line mode by the same matcher-aware predicate as the searcher.")
 NOT_DECIDED = ["that the printers' re-discovered matches equal the searcher's matches",
                "the empty match at the end of an unterminated last line (a known behavioural defect, value-level)"]
 
